@@ -130,12 +130,14 @@ def check_fields(case):
     cl = math.sqrt(M / rho0)
     t = case['t']
     front = a + cl * t
-    r = np.array(sorted(set([a] + [a + f * cl * t for f in case['fr']] + [front * 1.2 + a * 0.1])))
+    r = np.array(sorted(set([a] + [a + f * cl * t for f in case['fr']] + [front * 1.2 + a * 0.1, (front + a) * 1e3])))
 
     def call(rr, tt):
         with warnings.catch_warnings():
             warnings.simplefilter('ignore')
             return cat.quiet(s, np.asarray(rr, float), tt)
+    if t > 0:
+        call(r[:2], 0.37 * t)      # the object has been used at another time before (a solver is normally evaluated at a sequence of times)
     sol = call(r, t)
     u = np.asarray(sol['displacement'], float)
     err, eqq, evol = (np.asarray(sol[k], float) for k in ('strain_rr', 'strain_qq', 'strain_vol'))
